@@ -14,12 +14,25 @@
    A table lookup that would raise KeyError in the code sets `crashed` (the server loop turns any
    exception into a system-wide shutdown), so "no request takes the server down" is the invariant
    ~crashed.  Replies are appended to the client's reply channel; `truth` is the ground-truth state
-   machine of each compilation, against which every reply is judged when it is produced. *)
+   machine of each compilation, against which every reply is judged when it is produced.
+
+   The compute side may report an ERROR for a compilation whose root RESULT has already arrived
+   (a descendant nobody awaited raised: fire-and-forget submit, early return from a next() loop):
+   ErrorIn is enabled in state "done" too, before or after the result was shipped to the client.
+   The rows of tasks / mailbox_to_task_dict are kept after delivery exactly so that such late
+   messages still find their client; an error dropped although its compilation is not cancelled and
+   its owner is connected is the bad reply "raised-error-never-reported".
+   A client may disconnect while it owns finished compilations whose result it never requested;
+   NoOrphanMailbox says that no mailbox survives its task row.
+
+   Mut selects a deliberately broken variant of one handler (used only to show that the invariants
+   can fail: specs/runtime/ServerClients_mut_*.cfg); "none" is the code as it is. *)
 EXTENDS Naturals, Integers, Sequences, FiniteSets, TLC, Json
 
 CONSTANTS NC,          \* number of clients
           IDS,         \* pool of task ids (uuids); one extra value "U" in requests stands for an id never submitted
-          Record       \* BOOLEAN: keep history for replay
+          Record,      \* BOOLEAN: keep history for replay
+          Mut          \* "none" | "skip-ready-on-disconnect" | "error-needs-mailbox"
 Clients == 1..NC
 None == "-"
 
@@ -43,7 +56,7 @@ Connected(c) == c \in DOMAIN sclients
 
 Init == /\ sclients = [c \in Clients |-> {}] /\ tasks = <<>> /\ mboxes = <<>> /\ mb2id = <<>> /\ ctr = 0
         /\ replies = [c \in Clients |-> <<>>] /\ waiting = [c \in Clients |-> None] /\ conn = [c \in Clients |-> "open"]
-        /\ truth = [i \in IDS |-> [s |-> "absent", owner |-> 0, delivered |-> FALSE, mb |-> 0 - 1, reported |-> FALSE]]
+        /\ truth = [i \in IDS |-> [s |-> "absent", owner |-> 0, delivered |-> FALSE, mb |-> 0 - 1, reported |-> FALSE, erred |-> FALSE]]
         /\ crashed = FALSE /\ badreply = "none" /\ hist = <<>>
 
 Reply(c, r) == replies' = [replies EXCEPT ![c] = Append(@, r)]
@@ -57,7 +70,7 @@ Submit(c, i) ==
      ELSE /\ tasks' = Put(tasks, i, [mb |-> ctr, c |-> c]) /\ mb2id' = Put(mb2id, ctr, i)
           /\ mboxes' = Put(mboxes, ctr, [ready |-> FALSE, waiting |-> FALSE]) /\ ctr' = ctr + 1
           /\ sclients' = [sclients EXCEPT ![c] = @ \cup {i}]
-          /\ truth' = [truth EXCEPT ![i] = [s |-> "running", owner |-> c, delivered |-> FALSE, mb |-> ctr, reported |-> FALSE]]
+          /\ truth' = [truth EXCEPT ![i] = [s |-> "running", owner |-> c, delivered |-> FALSE, mb |-> ctr, reported |-> FALSE, erred |-> FALSE]]
           /\ crashed' = crashed
   /\ UNCHANGED <<replies, waiting, conn, badreply>>         \* submit is not acknowledged
 
@@ -65,7 +78,9 @@ Known(c, i) == i \in IDS /\ Connected(c) /\ i \in sclients[c] /\ i \in DOMAIN ta
 
 DropClient(c, sc, tk, mbx, m2i) ==
   \* handle_disconnect: cancel the client's active tasks, then forget every row that points at this connection
-  LET act == IF c \in DOMAIN sc THEN sc[c] ELSE {}
+  LET all == IF c \in DOMAIN sc THEN sc[c] ELSE {}
+      \* (Mut: "only compilations that are still running need cancelling")
+      act == IF Mut = "skip-ready-on-disconnect" THEN {i \in all : i \in DOMAIN tk /\ tk[i].mb \in DOMAIN mbx /\ ~mbx[tk[i].mb].ready} ELSE all
       tk1 == [i \in DOMAIN tk \ act |-> tk[i]]
       mbs == {tk[i].mb : i \in act \cap DOMAIN tk}
       gone == {i \in DOMAIN tk1 : tk1[i].c = c}
@@ -73,7 +88,7 @@ DropClient(c, sc, tk, mbx, m2i) ==
       tk |-> [i \in DOMAIN tk1 \ gone |-> tk1[i]],
       mbx |-> [m \in DOMAIN mbx \ mbs |-> mbx[m]],
       m2i |-> [m \in DOMAIN m2i \ (mbs \cup {tk1[i].mb : i \in gone}) |-> m2i[m]],
-      cancelled |-> act]
+      cancelled |-> all]
 
 Request(c, i) ==      \* result(id)
   /\ CanAsk(c)
@@ -162,16 +177,22 @@ ResultIn(i) ==      \* handle_result for a compilation's root task
                   /\ UNCHANGED <<sclients, replies, waiting, crashed, badreply>>
   /\ UNCHANGED <<tasks, mb2id, ctr, conn>>
 
-ErrorIn(i) ==       \* handle_error: an exception of some task of compilation i
-  /\ ~crashed /\ truth[i].s \in {"running", "cancelled"} /\ ~truth[i].reported
-  /\ LET mb == truth[i].mb IN
-     IF mb \notin DOMAIN mb2id
-     THEN /\ truth' = [truth EXCEPT ![i].reported = TRUE]                       \* errors of cancelled tasks are discarded
-          /\ UNCHANGED <<replies, waiting, crashed, badreply>>
-     ELSE IF mb2id[mb] \notin DOMAIN tasks THEN crashed' = TRUE /\ UNCHANGED <<replies, waiting, truth, badreply>>
+ErrorIn(i) ==       \* handle_error: an exception of some task of compilation i (possibly after its root's RESULT: state "done")
+  /\ ~crashed /\ truth[i].s \in {"running", "cancelled", "done"} /\ ~truth[i].erred /\ (truth[i].s = "done" \/ ~truth[i].reported)
+  /\ LET mb == truth[i].mb
+         known == IF Mut = "error-needs-mailbox" THEN mb \in DOMAIN mboxes ELSE mb \in DOMAIN mb2id
+         own == truth[i].owner
+     IN
+     IF ~known
+     THEN /\ truth' = [truth EXCEPT ![i].reported = TRUE, ![i].erred = TRUE]    \* errors of cancelled tasks are discarded
+          \* ... but only of cancelled ones: the owner of a live or finished compilation that is still connected must hear of it
+          /\ badreply' = IF truth[i].s \in {"running", "done"} /\ conn[own] = "open" /\ Connected(own)
+                         THEN "raised-error-never-reported" ELSE badreply
+          /\ UNCHANGED <<replies, waiting, crashed>>
+     ELSE IF mb \notin DOMAIN mb2id \/ mb2id[mb] \notin DOMAIN tasks THEN crashed' = TRUE /\ UNCHANGED <<replies, waiting, truth, badreply>>
      ELSE LET c == tasks[mb2id[mb]].c IN
           /\ Reply(c, [k |-> "ERROR", i |-> i]) /\ waiting' = [waiting EXCEPT ![c] = None]
-          /\ truth' = [truth EXCEPT ![i].reported = TRUE, ![i].s = IF @ = "running" THEN "failed" ELSE @]
+          /\ truth' = [truth EXCEPT ![i].reported = TRUE, ![i].erred = TRUE, ![i].s = IF @ = "running" THEN "failed" ELSE @]
           /\ badreply' = IF truth[i].owner # c THEN "cross-client-leak"
                          ELSE IF truth[i].s = "cancelled" THEN "error-of-cancelled-work-delivered" ELSE badreply
           /\ crashed' = crashed
@@ -214,8 +235,14 @@ RepliesConsistent == badreply = "none"
 TablesConsistent ==
   /\ \A mb \in DOMAIN mboxes : mb \in DOMAIN mb2id /\ mb2id[mb] \in DOMAIN tasks /\ tasks[mb2id[mb]].mb = mb
   /\ \A c \in DOMAIN sclients : \A i \in sclients[c] : i \in DOMAIN tasks /\ tasks[i].c = c
+\* no mailbox without a task row (a stored result nobody can ever claim or cancel)
+NoOrphanMailbox == \A mb \in DOMAIN mboxes : mb \in DOMAIN mb2id /\ mb2id[mb] \in DOMAIN tasks
 \* cancelled compilations leave nothing behind (C12, server side)
-NoCancelledResidue == \A i \in IDS : truth[i].s = "cancelled" => i \notin DOMAIN tasks /\ \A c \in DOMAIN sclients : i \notin sclients[c]
+NoCancelledResidue == \A i \in IDS : truth[i].s = "cancelled" => /\ i \notin DOMAIN tasks /\ \A c \in DOMAIN sclients : i \notin sclients[c]
+                                                                /\ truth[i].mb \notin DOMAIN mboxes /\ truth[i].mb \notin DOMAIN mb2id
+\* nothing of a disconnected client stays (its finished-but-unclaimed and its delivered compilations included)
+NoResidueOfGoneClient == \A i \in IDS : (truth[i].owner # 0 /\ ~Connected(truth[i].owner)) =>
+                            i \notin DOMAIN tasks /\ truth[i].mb \notin DOMAIN mboxes /\ truth[i].mb \notin DOMAIN mb2id
 \* a client that is waiting is waiting for a live compilation of its own
 WaitingIsLive == \A c \in Clients : (waiting[c] # None /\ conn[c] = "open") => truth[waiting[c]].owner = c /\ truth[waiting[c]].s \in {"running", "done", "failed"}
 Dump == IF Record /\ TLCGet("level") >= 6 THEN PrintT(<<"BEHAVIOUR", ToJson(hist)>>) ELSE TRUE
